@@ -56,6 +56,20 @@ Proof.
   - exact (reject_own podman exists_path kill_fixed mount_nl _ _ _ _ _ Hk Hd _ Ec).
   - exact (reject_quadlet podman exists_path kill_fixed mount_nl _ _ _ _ _ Hk Hd _ Ec).
 Qed.
+(* the bridge from the run to the converters: every service of the run with drop-ins is the result of ONE conversion of ONE input file's
+   main text merged with its drop-ins (up to the first that does not load), under the type of its path, with SOME name table.  Every
+   converter-level theorem ("convert_one u path t tbl = COk r -> ...", for all u and tbl) therefore speaks about every service of the run. *)
+Theorem trees_results_are_conversions files p svc sp :
+  In (p, ROk svc sp) (snd (process_trees podman exists_path kill_fixed mount_nl names_after files)) ->
+  exists text ds u0 t tbl t1, In (p, text, ds) files /\ parse_unit text = Some u0 /\ type_of_path p = Some t /\
+    convert_one podman exists_path kill_fixed mount_nl (fst (merge_dropins u0 ds)) p t tbl = COk (svc, sp, t1).
+Proof.
+  intros Hr. rewrite process_trees_snd in Hr.
+  destruct (convert_all_in _ _ _ _ _ _ _ _ Hr) as (x & tbl' & Hx & Ep & Er).
+  apply (tree_sorted_in names_after) in Hx. destruct (tree_units_spec names_after files x Hx) as (_ & (t0 & Ht0 & Hi) & _ & _ & (text' & ds' & u0 & Hin' & Hp' & Hu)).
+  symmetry in Er. apply res_of_ok in Er. destruct Er as [t1 Ec]. rewrite Hi, Hu, Ep in Ec. rewrite Ep in Hin', Ht0.
+  exists text', ds', u0, t0, tbl', t1. auto.
+Qed.
 End C16Trees.
 
 (* non-vacuity: a key that only a DROP-IN carries stops the unit; the same tree without that drop-in converts *)
